@@ -146,6 +146,17 @@ static void assignCompound(int kind, ADD& dst, const ADD& src) {
   }
 }
 static void auditCompound(int kind, const ADD& d, vf::Case& c, const std::string& ctx) {
+  // a component that is itself inconsistent is reported as such, and the compound built on it is not judged
+  std::vector<const DiscreteDistributionInterface*> comps;
+  if (auto* iv = dynamic_cast<const InvariantMixedDiscreteDistribution*>(&d)) comps.push_back(&iv->variableSubDistribution());
+  if (auto* mx = dynamic_cast<const MixtureOfDiscreteDistributions*>(&d)) for (size_t i = 0; i < mx->getNumberOfDistributions(); ++i) comps.push_back(&mx->nDistribution(i));
+  for (auto* n : comps) {
+    bool before = c.failed;
+    c.failed = false;
+    auditNormalisation(*n, c, ctx + " component " + n->getName(), std::string("component-of-") + ckClass(kind));
+    bool bad = c.failed; c.failed = before || bad;
+    if (bad) return;
+  }
   auditNormalisation(d, c, ctx, ckClass(kind));
   auditCumulative(d, c, ctx);
 }
@@ -442,6 +453,7 @@ int main(int argc, char** argv) {
   R.note("domain taken as the object reports it; class masses and means are judged against the object's own pProb/Expectation relative to the mass of the reported domain");
   R.note("a class value may leave its class interval by (k+1) steps of precision() or of the double grid, whichever is coarser: the boundary adjustment and duplicate separation of the library move values by that much by design");
   R.note("look-up: a value on a bound may be reported in either adjacent class; getCategoryIndex may count from 0 or from 1, but must do so consistently over all test points of a state");
+  R.note("signatures of the structural, mass and mean clauses carry the class of the reported domain: regular, tail-domain (mass of one class M/k below 1e-5, the order of the probabilities the library's quantile functions resolve) or zero-mass-domain; every class is judged");
   R.note("domains whose mass is zero in double precision are judged on the structural clauses only (mass and mean clauses are undefined there)");
   R.note("compounds (constant, simple, invariant-mixed, mixture) are judged on class count = class list, p>=0, sum=1, cumulative queries; their bounds are not judged; setNumberOfCategories is not applied to constant/simple (a user-specified class list has no other class count)");
   return R.finish();
